@@ -58,6 +58,9 @@ def slot_families(ctx: Ctx, rule: str, only_family: str | None = None, producers
             if not check_guard and not p.guard_ok:
                 ctx.ok(rule, key, "counter discipline of this producer is not this property's subject (see C04 / C05-C07)", where)
                 continue
+            if p.desc.opaque and p.desc.unknown:
+                ctx.undecided(rule, key, f"{p.func.qualname}: the sequence that numbers the {fam} slots ({p.desc.show()}) could not be followed back to the model's accessors", where)
+                continue
             if p.desc.opaque:
                 ctx.fail(rule, key, f"{p.func.qualname}: the sequence that numbers the {fam} slots ({p.desc.show()}) cannot be related to the model's accessors", where)
                 continue
